@@ -14,8 +14,16 @@ LEVEL_TEXT = ("Coq theorems over the disk-level model of the file store, in whic
               "itself per segment, which resets the global id counter), compared with the model and with an ordered-map oracle.")
 LEVEL_NOTE = ("The theorems are about Model/FileDisk.v (hand-written model of pkg/storage/file); that the real Store keeps no mailbox "
               "state between calls is checked by the correspondence run, not proved; encoding/gob is a section variable with the "
-              "round-trip hypothesis; the id generator is an input (any candidate list), its uniqueness within a process is assumed "
-              "only by the driver's handle bookkeeping.")
+              "round-trip hypothesis; the id generator is an input (any candidate list). TWO MODELS, ONE SPEC: the ordered map these "
+              "theorems are stated over is StoreSpec's — filedisk_refines_storespec (Proofs/FileDiskSpec*.v): run through the SAME "
+              "handle-resolving runner as b-store's Model/FileStore.v (StoreSpecImpl.run_impl), the disk model's answers are run_spec's "
+              "(exactly without Visit; Visit as a set of mailboxes) and its final disk is the image of final_spec, so cap_bound, oldest-first "
+              "eviction, ids_not_reused, latest_is_last (C07/C08), pop3_over_storespec (C13) and the scan theorems (C12) hold of the disk model; "
+              "crash_is_storespec_state extends it to every crash point. Hypotheses under which the two file-store models coincide, all named in "
+              "the theorem: hash injective on the names in use (StoreSpec keys mailboxes by name, the disk by SHA-1 directory); disk_fresh = "
+              "b-store's file_fresh (the generator offers an id that is neither in the mailbox nor was issued to it before — an input here, a "
+              "modelled clock + gen_loop there; it is exactly what the open finding violates); c_max = 0; a round-tripping encoding of the "
+              "message descriptor (date, tag, size) into info/body; cap eviction needs none (both evict the mailbox's oldest first).")
 TECHNIQUE = "machine-checked proof in Coq + model/code correspondence check"
 DESIGN_REF = "DESIGN.md §4 C10"
 RULE = ("hist: 5 fixed histories (the deliver / restart / deliver program of finding 14 and variations), 200 (thorough 5000) random "
@@ -33,6 +41,7 @@ RULE = ("hist: 5 fixed histories (the deliver / restart / deliver program of fin
         "messages of ALL mailboxes. The harness's own views (state before/after a reopen, live-vs-fresh) come from separate freshly "
         "constructed store objects; the object under test is never walked by the harness.")
 TRUSTED = ["encoding/gob round trip: dec (enc i) = Some i (section hypothesis)",
+           "SHA-1 (HashMailboxName) does not collide on the mailbox names in use (hypothesis hash_inj of filedisk_refines_storespec)",
            "the real Store object holds no mailbox state between calls (sampled by the correspondence run: state before = state after every reopen)"]
 ASSUMPTIONS = ["no I/O errors", "one operation at a time per mailbox (C09 covers interleavings)",
                "fewer than 10000 deliveries per second per process (the id counter wraps at 10000)"]
